@@ -2,20 +2,23 @@
 
 Ties
   T  harness/translate/fmt_table.py regenerates lean/Emboss/Generated/FmtTable.lean
-     (grammar productions + production -> handler registry, sorted, plus an interned copy)
-     before the Lean build; `C11_table_ok` (every handler known, registered with the right
+     (grammar productions + production -> handler registry, sorted, plus an interned copy) and
+     lean/Emboss/Generated/FmtGlue.lean (certificate tables for separability) before the Lean build; `C11_table_ok` (every handler known, registered with the right
      calling convention, typed at every production, ignoring only layout tokens; registry =
      grammar) is re-decided in the kernel by `lake build`; the compiled checker re-evaluates
      it (op TABLE) together with the separability obligation (ops GLUE / GLUECHECK).
   C  real `format_emb.format_emboss_parse_tree(tree, Config(indent_width=k))` vs the model
      driver op `FMT k <tree>` on the same parse tree: byte-identical text, k in 1..8;
-     real `sanity_check_format_result` vs op `SANITY` on token streams.
+     real `sanity_check_format_result` vs op `SANITY` on token streams (answer kind and,
+     for "Symbol i differs", the index).
 
 Spec oracle (model-free, written from the property statement): the formatted text
 tokenizes and parses; its token stream equals the original's up to newline runs,
 Indent texts and trailing blanks of Comment/Documentation; the IR built from both parse
 trees is equal apart from source locations; formatting the result again is the
-identity; `sanity_check_format_result` returns []; nothing raises.
+identity; `sanity_check_format_result` returns []; nothing raises.  For the self-check
+itself: on any two tokenizable texts it returns [] iff the two token streams are equal up
+to newline runs / leading newlines and blanks around token texts, and it never raises.
 """
 import io
 import json
@@ -162,28 +165,14 @@ def spec_check(text, toks, tree, k, with_ir=False):
     return "ok", "", out
 
 
-# ----------------------------------------------------------------- known findings (narrow predicates)
-F_MINUS = "minus-minus-juxtaposed"          # `a - -b` rendered `a--b`
-F_DOC = "inline-doc-trailing-blanks-widen-column"
+# ----------------------------------------------------------------- constructs of the three repaired defects
+# (81a07e9 `a - -b`, ad57b46 trailing blanks of inline documentation, f3f855c self-check and
+# stream lengths).  Nothing is routed or excused any more: the predicates only count how often
+# the generated inputs contain the construct, so that reverting a fix is reported.
 
 
 def has_minus_minus(toks):
     return any(a.symbol == '"-"' and b.symbol == '"-"' for a, b in zip(toks, toks[1:]))
-
-
-def repair_minus_minus(text, toks):
-    """Same text with the second `-` of every adjacent `-` `-` pair turned into `+`."""
-    lines = text.splitlines()
-    prev_minus = False
-    for t in toks:
-        if t.symbol == '"-"' and prev_minus:
-            ln, col = t.source_location.start.line, t.source_location.start.column
-            s = lines[ln - 1]
-            lines[ln - 1] = s[:col - 1] + "+" + s[col:]
-            prev_minus = False
-        else:
-            prev_minus = t.symbol == '"-"'
-    return "\n".join(lines) + "\n"
 
 
 def inline_docs_with_trailing_blanks(toks):
@@ -198,12 +187,141 @@ def inline_docs_with_trailing_blanks(toks):
     return out
 
 
-def repair_inline_docs(text, toks):
-    lines = text.splitlines()
-    for t in inline_docs_with_trailing_blanks(toks):
-        ln = t.source_location.start.line
-        lines[ln - 1] = lines[ln - 1].rstrip()
-    return "\n".join(lines) + "\n"
+# ----------------------------------------------------------------- tree shape
+def shape_has(tree, what):
+    """Construct detectors (statistics only), on the parse tree, by symbol names of the grammar:
+    `if_comment`: a comment line directly below an `if …:` header, above its first field;
+    `inline_abbrev`: an inline struct/enum/bits field definition that carries an abbreviation."""
+    stack = [tree]
+    while stack:
+        n = stack.pop()
+        if isinstance(n, parser_types.Token):
+            continue
+        lhs = n.production.lhs
+        rhs = list(n.production.rhs)
+        if what == "if_comment" and lhs.startswith("conditional-") and "eol" in rhs:
+            if any(t.symbol == "Comment" for t in leaves_of(n.children[rhs.index("eol")])):
+                return True
+        if what == "inline_abbrev" and lhs.startswith("inline-") and "abbreviation?" in rhs:
+            if leaves_of(n.children[rhs.index("abbreviation?")]):
+                return True
+        stack.extend(n.children)
+    return False
+
+
+def leaves_of(n):
+    out, stack = [], [n]
+    while stack:
+        m = stack.pop()
+        if isinstance(m, parser_types.Token):
+            out.append(m)
+        else:
+            stack.extend(reversed(m.children))
+    return out
+
+
+def same_shape(t1, t2):
+    """Hypothesis of `C11_format_fixed_point_partial` (`equivC`): same productions node by node;
+    at the tokens the same symbol and the same text, except that layout tokens (Indent, Dedent,
+    newline) may carry any text and Documentation / Comment tokens may differ in trailing blanks."""
+    stack = [(t1, t2)]
+    while stack:
+        a, b = stack.pop()
+        ta, tb = isinstance(a, parser_types.Token), isinstance(b, parser_types.Token)
+        if ta != tb:
+            return False
+        if ta:
+            if a.symbol != b.symbol:
+                return False
+            if a.symbol in (NL, "Indent", "Dedent"):
+                continue
+            if a.symbol in ("Documentation", "Comment"):
+                if a.text.rstrip() != b.text.rstrip() or (a.text == "") != (b.text == ""):
+                    return False
+            elif a.text != b.text:
+                return False
+        else:
+            if a.production != b.production or len(a.children) != len(b.children):
+                return False
+            stack.extend(zip(a.children, b.children))
+    return True
+
+
+def relayout(r, text, toks):
+    """The same token sequence laid out differently *within* each line: every indentation character
+    doubled (prefix relations between indentations, which is all the tokenizer looks at, are kept),
+    every non-empty gap between two tokens replaced by a random blank string, blanks appended after
+    a Documentation or Comment token.  Line structure (blank lines, comment lines) is untouched, so the parse
+    tree is `equivT` to the original one: `C11_format_factors_partial` says the formatted text must
+    be the same."""
+    lines = text.split("\n")
+    per_line = {}
+    for t in toks:
+        if t.symbol in (NL, "Indent", "Dedent"):
+            continue
+        per_line.setdefault(t.source_location.start.line, []).append(t)
+    out = []
+    for n, line in enumerate(lines, 1):
+        ts = per_line.get(n)
+        if not ts:
+            out.append(line)
+            continue
+        first = ts[0].source_location.start.column - 1
+        new = "".join(ch * 2 for ch in line[:first])
+        prev_end = None
+        for t in ts:
+            a, b = t.source_location.start.column - 1, t.source_location.end.column - 1
+            if prev_end is not None:
+                new += r.choice([" ", "  ", "   ", " \t", "     "]) if line[prev_end:a] else ""
+            new += line[a:b]
+            prev_end = b
+        if ts[-1].symbol in ("Documentation", "Comment"):
+            new += r.choice(["", " ", "    "])
+        else:
+            new += line[prev_end:]
+        out.append(new)
+    return "\n".join(out)
+
+
+def relaid_case(st, r, text, k):
+    """Metamorphic use of the normal-form theorem on the real code: a re-laid-out copy of `text`
+    goes through the whole oracle + correspondence as an input of its own, and the real formatter
+    must give the same text for both."""
+    toks, tree = parse(text)
+    if toks is None:
+        return
+    try:
+        text2 = relayout(r, text, toks)
+    except Exception:  # noqa: BLE001  (positions the helper does not understand: not a formatter matter)
+        st.bump(st.stats, "relaid_rejected")
+        return
+    toks2, tree2 = parse(text2)
+    if text2 == text or toks2 is None or not same_shape(tree2, tree):
+        st.bump(st.stats, "relaid_rejected")
+        return
+    run_text(st, text2, [k], "relaid", with_ir=False)
+    try:
+        same = real_format(tree2, k) == real_format(tree, k)
+    except Exception:  # noqa: BLE001  (reported by the oracle in run_text)
+        return
+    st.bump(st.stats, "relaid_same_output" if same else "relaid_output_differs")
+    if not same and len(st.chk.violations) < st.max_viol:
+        st.chk.violation("correspondence", {
+            "input": text, "relaid_input": text2, "indent_width": k,
+            "theorem_or_correspondence": "C11_format_factors_partial: trees that differ only in layout-token texts / "
+                                         "trailing blanks of documentation and comments are formatted to the same text",
+            "note": "the real formatter's output depends on the layout of the source; the model's provably "
+                    "does not (not by itself a violation of the property statement)"}, found_input=False)
+
+
+def fixed_point_hypothesis(st, tree, out):
+    """How often idempotence is a consequence of the theorem: the parse tree of the formatted
+    text has the shape of the original one (the source already had the formatter's blank-line and
+    comment-line structure)."""
+    t2, tree2 = parse(out)
+    if t2 is None:
+        return
+    st.bump(st.stats, "fixed_point_theorem_applies" if same_shape(tree2, tree) else "fixed_point_by_oracle_only")
 
 
 # ----------------------------------------------------------------- one case
@@ -224,19 +342,14 @@ class State:
 
 def shrink(text, k, verdict, budget_s=8.0):
     """Delta-debugging: drop lines, then blank-separated words, while the same kind of failure
-    remains (and no known-finding predicate sneaks in)."""
+    remains."""
     t_end = time.time() + budget_s
-    toks0, _ = parse(text)
-    allow_mm = toks0 is not None and has_minus_minus(toks0)
-    allow_doc = toks0 is not None and bool(inline_docs_with_trailing_blanks(toks0))
 
     def pred(cand):
         if time.time() > t_end:
             return False
         toks, tree = parse(cand)
         if toks is None:
-            return False
-        if (has_minus_minus(toks) and not allow_mm) or (inline_docs_with_trailing_blanks(toks) and not allow_doc):
             return False
         return spec_check(cand, toks, tree, k)[0] == verdict
     lines = text.split("\n")
@@ -289,7 +402,7 @@ def report(st, text, k, verdict, detail, key=None):
                                            "the identity, self-check returns [], no exception"}, key=key)
 
 
-def run_text(st, text, widths, origin, with_ir=True, depth=0):
+def run_text(st, text, widths, origin, with_ir=True):
     """Full oracle on one text for the given widths; queue the model comparison."""
     chk = st.chk
     toks, tree = parse(text)
@@ -297,39 +410,23 @@ def run_text(st, text, widths, origin, with_ir=True, depth=0):
         st.bump(st.stats, "skipped_" + tree.split(" ")[0])
         return False
     st.bump(st.stats, "parsed_" + origin)
+    if has_minus_minus(toks):
+        st.bump(st.stats, "with_binary_minus_unary_minus")
+    if inline_docs_with_trailing_blanks(toks):
+        st.bump(st.stats, "with_inline_doc_trailing_blanks")
+    if shape_has(tree, "if_comment"):
+        st.bump(st.stats, "with_comment_below_if")
+    if shape_has(tree, "inline_abbrev"):
+        st.bump(st.stats, "with_inline_type_abbreviation")
     used = set()
     for i, k in enumerate(widths):
         chk.count()
         verdict, detail, out = spec_check(text, toks, tree, k, with_ir=(with_ir and i == 0))
         st.bump(st.verdicts, verdict)
         if verdict != "ok":
-            # A text may carry both known defects: the repaired text is checked again (depth 1),
-            # where the other predicate may route once more (depth 2 = both repairs applied).
-            mm = has_minus_minus(toks)
-            docs = inline_docs_with_trailing_blanks(toks)
-            routed = False
-            if mm and verdict in ("reparse-fail", "tokens-differ"):
-                # known finding only if it is the *only* problem: the repaired text must pass
-                rep = repair_minus_minus(text, toks)
-                if depth <= 1 and run_text(st, rep, [k], origin + "+repaired", with_ir, depth + 1) is True:
-                    routed = True
-                    st.bump(st.stats, "known_minus_minus")
-                    k0 = chk.known_finding(F_MINUS)
-                    if k0:
-                        pass  # printed once by the pinned input; do not flood
-                    else:
-                        report(st, text, k, verdict, detail, key=F_MINUS)
-            elif docs and verdict == "not-idempotent":
-                rep = repair_inline_docs(text, toks)
-                if depth <= 1 and run_text(st, rep, [k], origin + "+repaired", with_ir, depth + 1) is True:
-                    routed = True
-                    st.bump(st.stats, "known_inline_doc")
-                    if not chk.known_finding(F_DOC):
-                        report(st, text, k, verdict, detail, key=F_DOC)
-            if not routed:
-                report(st, text, k, verdict, detail)
-                if depth > 0:
-                    return None
+            report(st, text, k, verdict, detail)
+        elif i == 0:
+            fixed_point_hypothesis(st, tree, out)
         # model comparison (the model mirrors the code, defects included)
         try:
             out_real = real_format(tree, k)
@@ -344,7 +441,8 @@ def run_text(st, text, widths, origin, with_ir=True, depth=0):
     except Exception:  # noqa: BLE001  (already reported by the oracle above)
         pass
     st.productions_used |= used
-    chk.nontrivial("%s|%s" % (origin.split("+")[0], hash(tuple(sorted(str(p) for p in used)))))
+    if origin != "relaid":      # a re-laid-out copy has the production set of its source: not a new case
+        chk.nontrivial("%s|%s" % (origin, hash(tuple(sorted(str(p) for p in used)))))
     return True
 
 
@@ -380,12 +478,28 @@ BOUNDARY = [
     "external Foo:\n  -- doc\n  [a: 1]\n",
     "struct Foo:\n  0 [+1] UInt x\n\n\n\n\n  # c\n\n\n  1 [+1] UInt y\n",
     "struct Foo:\n  let x = a ? b : c\n  let y = a == b && c != d || e < f\n  let z = $max(a, b,c) + $present(x.y.z)\n",
+    # comment lines (and blank lines) at every place a line can stand: below an `if` header, below a type
+    # header, below a field with a body, between attribute lines, before a dedent — in struct, bits,
+    # anonymous bits, enum
+    "struct Foo:\n  0 [+1] UInt a\n  if a == 1:\n    # below if\n\n    # second\n    1 [+1] UInt b\n      -- doc of b\n    2 [+1] UInt c\n",
+    "bits Foo:\n  0 [+1] Flag a\n  if a:  # on the if line\n    # below if\n    1 [+1] Flag b\n",
+    "struct Foo:\n  0 [+4] bits:\n    0 [+1] Flag a\n    if a:\n      # below if, anonymous bits\n      1 [+1] Flag b\n    # after\n",
+    "struct Foo:  # header\n  # below header\n\n  -- doc\n  # between doc and attribute\n  [a: 1]\n  # before field\n  0 [+1] UInt x  # on field\n    # below field\n    -- doc of x\n    # between\n    [b: 2]\n    # end of body\n  # end of struct\n# end of file\n",
+    "enum Foo:\n  # below header\n  AA = 1  # on value\n    # below value\n    -- doc\n  # between values\n\n\n  BB = 2\n",
+    # abbreviations on plain fields and on every inline type
+    "struct Foo:\n  0 [+1] UInt x (xx)\n  1 [+1] enum e (ee):\n    AA = 0\n  2 [+1] bits b (bb):\n    0 [+1] Flag f (ff)\n  3 [+2] struct s (ss):  # c\n    0 [+1] UInt q (qq)\n",
+    "bits Foo:\n  0 [+4] enum e (ee):\n    AA = 0\n  4 [+4] UInt y (yy)\n",
 ]
 
+# pinned inputs of the repaired findings (also in corpus/C11/): they must pass now
 PINNED = {
-    F_MINUS: "struct Foo:\n  0 [+1] UInt x\n  let y = x - -5\n",
-    F_DOC: "enum Foo:\n  AA = 1 -- abc   \n  BB = 2 # c\n",
+    "minus-minus-juxtaposed": "struct Foo:\n  0 [+1] UInt x\n  let y = x - -5\n",
+    "inline-doc-trailing-blanks-widen-column": "enum Foo:\n  AA = 1 -- abc   \n  BB = 2 # c\n",
 }
+# (formatted, original) probes of the repaired finding `sanity-check-ignores-length`
+SANITY_PINNED = [("-- doc\n-- extra\n", "-- doc\n"), ("", "-- doc\n"), ("-- doc\n", "-- doc\n-- extra\n"),
+                 ("-- doc\n", ""), ("struct Foo:\n  0 [+1] UInt x\n  let y = x--5\n",
+                                    "struct Foo:\n  0 [+1] UInt x\n  let y = x - -5\n")]
 
 
 def corpus_texts():
@@ -415,7 +529,10 @@ def widths_for(r, tier, n):
 def generated_stream(st, r, n, nwidths):
     for _ in range(n):
         text, toks = fmtgen.program(r, st.stats)
-        run_text(st, text, widths_for(r, st.tier, nwidths), "generated")
+        ws = widths_for(r, st.tier, nwidths)
+        run_text(st, text, ws, "generated")
+        if _ % 3 == 0:
+            relaid_case(st, r, text, ws[0])
 
 
 class Collector:
@@ -606,41 +723,60 @@ def tok_arg(toks):
 def real_sanity(formatted, original):
     try:
         s = format_emb.sanity_check_format_result(formatted, original)
-    except IndexError:
-        return "indexerror"
+    except Exception as e:  # noqa: BLE001
+        return "exception " + type(e).__name__
     if not s:
         return "ok"
     if s[0].startswith("BUG: Symbol "):
         return "differs " + s[0].split()[2]
     if s[0].startswith("BUG: Token count differs"):
         return "countdiffers"
-    return "other"
+    return "other " + s[0][:60]
 
 
-def sanity_op_name():
-    """The model has both variants of the self-check (as shipped; with the length comparison of
-    fixes/C11-sanity-check-length.patch).  Which one the code under test is, is observed on the
-    pinned probe of finding `sanity-check-ignores-length`."""
-    return "SANITYLEN" if real_sanity("-- doc\n-- extra\n", "-- doc\n") == "countdiffers" else "SANITY"
+def spec_sanity(ft, ot):
+    """Spec oracle for the self-check, from the property statement ("its built-in self-check
+    agrees": it accepts exactly when the token sequences are the same up to whitespace and blank
+    lines): True iff the two token streams, with every newline token that starts the stream or
+    follows another newline token dropped, have the same length and pairwise the same symbol and
+    the same text up to surrounding blanks."""
+    def norm(toks):
+        out = []
+        for t in toks:
+            if t.symbol == NL and (not out or out[-1][0] == NL):
+                continue
+            out.append((t.symbol, t.text.strip()))
+        return out
+    return norm(ft) == norm(ot)
 
 
 def sanity_ops(st, r, pairs):
-    """(formatted, original) text pairs -> model op + expected answer from the real function."""
+    """(formatted, original) text pairs -> model op + answer of the real function; the real answer is
+    also held against the spec oracle (`ok` iff the streams agree; never an exception)."""
     ops = []
-    opname = sanity_op_name()
-    st.stats["sanity_model_variant"] = opname
     for f, o in pairs:
         ft, e1 = tokenizer.tokenize(f, "")
         ot, e2 = tokenizer.tokenize(o, "")
         if e1 or e2:
             continue
-        # (for IndexError the model also says at which index; the comparison only looks at the kind)
-        ops.append(("%s %s %s" % (opname, tok_arg(ft), tok_arg(ot)), real_sanity(f, o), (f, o)))
+        st.chk.count()
+        real = real_sanity(f, o)
+        agree = spec_sanity(ft, ot)
+        st.bump(st.stats, "sanity_" + real.split()[0])
+        bad = real.startswith("exception") or real.startswith("other") or (real == "ok") != agree
+        if bad:
+            st.bump(st.stats, "sanity_against_spec")
+            if len(st.chk.violations) < st.max_viol:
+                st.chk.violation("input", {
+                    "input": {"formatted": f, "original": o}, "observed": "sanity_check_format_result: " + real,
+                    "expected": "[] iff the token streams agree up to newline runs and blanks around "
+                                "token texts (they %s); never an exception" % ("agree" if agree else "differ")})
+        ops.append(("SANITY %s %s" % (tok_arg(ft), tok_arg(ot)), real, (f, o, bad)))
     return ops
 
 
 def sanity_pairs(r, texts):
-    out = []
+    out = list(SANITY_PINNED)
     for t in texts:
         toks, tree = parse(t)
         if toks is None:
@@ -659,16 +795,21 @@ def sanity_pairs(r, texts):
             out.append(("\n".join(fl[:i] + fl[i + 1:]), t))         # a line dropped
             out.append((f, "\n".join(tl[: max(1, len(tl) // 2)])))   # original shorter
             out.append(("\n\n" + f.replace("\n", "\n\n"), t))        # extra newlines only
+            out.append((f + "\n\n", t + "# tail\n"))                 # original longer by one token
+            j = r.randrange(len(fl))
+            out.append(("\n".join(fl[:j] + ["# changed"] + fl[j + 1:]) + "\n-- more\n", t))  # differs, then longer
     return out
 
 
 # ----------------------------------------------------------------- glued terminal pairs (separability)
 def glued_pairs_check(st, model):
-    """Separability obligation.  The driver computes, from the regenerated grammar + handler
-    table, every terminal pair some handler prints with nothing in between (`gluedPairs`,
-    Spec/Fmt.lean) and checks it against the audited list (`gluedOK`).  Here every computed
-    pair (except the known-bad `-` `-`) is tried on the real tokenizer: texts of the two
-    classes, juxtaposed, must tokenize back into exactly the two tokens."""
+    """Separability obligation `C11_render_separable`.  The driver computes, from the regenerated
+    grammar + handler table, every terminal pair some handler prints with nothing in between
+    (`gluedPairs`, Spec/Fmt.lean), checks that its fixpoint computations converged and that each
+    pair is in the audited list (`gluedOK`, compiled checker; the kernel checks the certificate
+    form of the same statement, theorem `C11_render_separable`).  Here every computed pair is
+    tried on the real tokenizer: texts of the two classes, juxtaposed, must tokenize back into
+    exactly the two tokens — no unsplit pair."""
     chk = st.chk
     chk.obligations += 1
     ok, pairs_line = model.ask(["GLUECHECK", "GLUE"])
@@ -678,21 +819,21 @@ def glued_pairs_check(st, model):
     bad = []
     n = 0
     for a, b in pairs:
-        known_bad = (a, b) == ('"-"', '"-"')
         for _ in range(8):
             ta, tb = fmtgen.terminal_text(r, a), fmtgen.terminal_text(r, b)
             got = fmtgen.real_stream(ta + tb)
             n += 1
-            split_ok = got is not None and [x for x in got if x[0] != NL] == [(a, ta), (b, tb)]
-            if not split_ok and not known_bad:
+            if not (got is not None and [x for x in got if x[0] != NL] == [(a, ta), (b, tb)]):
                 bad.append((a, b, ta + tb))
                 break
     st.stats["glued_pair_samples"] = n
+    st.stats["glued_pairs_unsplit"] = len(bad)
     chk.extra["glue_obligation"] = ok[:300]
     if ok == "ok" and not bad:
         chk.discharged += 1
-        chk.theorems.append({"theorem": "gluedOK formatters grammar (compiled checker, op GLUECHECK) + tokenizer "
-                                        "sampling of every computed pair", "axioms": ["Lean compiler"]})
+        chk.theorems.append({"theorem": "gluedOK formatters (fixpoint form of C11_render_separable; compiled checker, op "
+                                        "GLUECHECK) + tokenizer sampling of every computed pair: no unsplit pair",
+                             "axioms": ["Lean compiler"]})
         return
     what = "gluedOK: %s; pairs the tokenizer does not split: %r" % (ok[:500], bad[:5])
     print("separability obligation of C11 no longer holds: " + what)
@@ -713,6 +854,7 @@ def search(chk):
     for t in BOUNDARY:
         run_text(st, t, [1, 3], "boundary")
     generated_stream(st, r, 500, 2)
+    sanity_ops(st, r, sanity_pairs(r, BOUNDARY))
     chk.extra["search_verdicts"] = st.verdicts
     return len(chk.violations) - before
 
@@ -737,12 +879,12 @@ def run(tier):
         chk.extra["table_obligation"] = ans
         if ans == "ok":
             chk.discharged += 1
-            chk.theorems.append({"theorem": "tableTyped formatters ∧ tableMatchesGrammar (compiled checker, op TABLE)",
+            chk.theorems.append({"theorem": "tableTyped ∧ tableMatchesGrammar ∧ tableNormal ∧ tableComment formatters (compiled checker, op TABLE)",
                                  "axioms": ["Lean compiler"]})
         else:
             print("table obligations of C11 no longer hold: %s" % ans[:1500])
             if not search(chk):
-                chk.violation("theorem", {"theorem_or_correspondence": "tableTyped formatters / tableMatchesGrammar: " + ans,
+                chk.violation("theorem", {"theorem_or_correspondence": "tableTyped / tableMatchesGrammar / tableNormal / tableComment: " + ans,
                                           "note": "regenerated production->handler table no longer satisfies the "
                                                   "hypothesis of C11_total / C11_tokens_preserved; search found no "
                                                   "failing input"}, found_input=False)
@@ -752,14 +894,11 @@ def run(tier):
     quick = tier == "quick"
     t0 = time.time()
 
-    # pinned inputs of open findings
+    # pinned inputs of open findings (none at present: the three round-1 findings are repaired
+    # in /repo and their inputs are ordinary corpus / boundary cases now)
     for k in chk.known:
         if k.get("property") == PROP and k.get("status") == "open":
             text = k.get("input", "")
-            if k["key"] == "sanity-check-ignores-length":
-                if real_sanity("-- doc\n-- extra\n", "-- doc\n") == "ok" or real_sanity("", "-- doc\n") == "indexerror":
-                    chk.report_known(k)
-                continue
             toks, tree = parse(text)
             if toks is None:
                 continue
@@ -771,6 +910,11 @@ def run(tier):
         run_text(st, t, [2, 4] if quick else list(range(1, 9)), "corpus", with_ir=not quick or len(t) < 6000)
     for t in BOUNDARY + list(PINNED.values()):
         run_text(st, t, list(range(1, 9)), "boundary")
+        relaid_case(st, r, t, r.randrange(1, 9))
+    for name, t in corpus:
+        if quick and len(t) > 6000:
+            continue
+        relaid_case(st, r, t, r.randrange(1, 9))
     chk.extra["t_corpus_s"] = round(time.time() - t0, 1)
 
     t1 = time.time()
@@ -789,7 +933,7 @@ def run(tier):
     malformed_stream(st, r, 25 if quick else 200)
     chk.extra["t_malformed_s"] = round(time.time() - t1, 1)
     t1 = time.time()
-    cli_path(st, r, [SIMPLE, PINNED[F_MINUS]] + [corpus[r.randrange(len(corpus))][1] for _ in range(6) if corpus]
+    cli_path(st, r, [SIMPLE, PINNED["minus-minus-juxtaposed"]] + [corpus[r.randrange(len(corpus))][1] for _ in range(6) if corpus]
              + [fmtgen.program(r, None)[0] for _ in range(6)])
     chk.extra["t_cli_s"] = round(time.time() - t1, 1)
     t1 = time.time()
@@ -800,12 +944,15 @@ def run(tier):
     chk.extra["productions_exercised"] = len(module_ir.PRODUCTIONS) - len(missing)
     chk.extra["productions_not_exercised"] = missing[:20]
 
+    # the self-check against its own spec oracle (model-free), on formatted/original pairs and on
+    # damaged variants (formatted shorter / longer / a line dropped / a line changed …)
+    sp = sanity_pairs(r, [t for _, t in corpus[:: (8 if quick else 2)]] + BOUNDARY)
+    sops = sanity_ops(st, r, sp)
+
     # correspondence with the model
     if model_ok:
         model = common.Model("model_c11")
         glued_pairs_check(st, model)
-        sp = sanity_pairs(r, [t for _, t in corpus[:: (8 if quick else 2)]] + BOUNDARY)
-        sops = sanity_ops(st, r, sp)
         lines = [op for op, _, _, _ in st.model_ops] + [op for op, _, _ in sops]
         answers = model.ask(lines, timeout=1800)
         dis = 0
@@ -829,9 +976,10 @@ def run(tier):
                         "theorem_or_correspondence": "model_c11 FMT vs format_emboss_parse_tree (byte-identical)"},
                         found_input=(verdict != "ok"))
         for (op, want, pair), ans in zip(sops, answers[len(st.model_ops):]):
-            agree = ans == want or (want == "indexerror" and ans.startswith("indexerror "))
-            if not agree:
+            if ans != want:
                 dis += 1
+                if pair[2]:
+                    continue    # the real self-check is wrong on this pair: reported above with the input
                 if dis <= 5:
                     chk.violation("correspondence", {
                         "input": {"formatted": pair[0], "original": pair[1]}, "model": ans, "observed": want,
@@ -841,8 +989,8 @@ def run(tier):
         chk.extra["traces_validated_against_impl"] = len(lines)
         chk.extra["fmt_ops"] = len(st.model_ops)
         chk.extra["sanity_ops"] = len(sops)
-        chk.extra["sanity_answers"] = {a.split()[0]: sum(1 for _, w, _ in sops if w.split()[0] == a.split()[0])
-                                       for a in set(w for _, w, _ in sops)}
+        chk.extra["sanity_answers"] = {a: sum(1 for _, w, _ in sops if w.split()[0] == a)
+                                       for a in sorted(set(w.split()[0] for _, w, _ in sops))}
         chk.extra["disagreements"] = dis
         chk.extra["tie"] = "byte-identical text, indent widths 1..8"
     chk.extra["generator"] = st.stats
@@ -864,6 +1012,11 @@ def replay(path):
     text = rec.get("input")
     if isinstance(text, dict):
         print("sanity_check_format_result:", real_sanity(text["formatted"], text["original"]))
+        ft, e1 = tokenizer.tokenize(text["formatted"], "")
+        ot, e2 = tokenizer.tokenize(text["original"], "")
+        if not e1 and not e2:
+            print("spec oracle: the token streams", "agree" if spec_sanity(ft, ot) else "differ",
+                  "(expected answer: %s)" % ("ok" if spec_sanity(ft, ot) else "a reported difference"))
         return 0
     k = rec.get("indent_width", 2)
     toks, tree = parse(text)
